@@ -141,6 +141,7 @@ EncKindsOf(c)  == {<<"enc", x, 0, 0>> : x \in EncKinds}
 CtxKindsOf(c)  == {<<"ctx", x, 0, 0>> : x \in CtxKinds \ {"msgflip", "digflip"}}
                   \cup {<<"ctx", "msgflip", i, 0>> : i \in {1, Len(c.msg)} \ {0}}
                   \cup {<<"ctx", "digflip", i, m>> : i \in {1, 32}, m \in {1, 128}}
+AdvKindsOf     == {<<"adv", nm, j, 0>> : nm \in AdvKinds, j \in 1..3}
 ForgeKinds     == {<<"forge", "", j, 0>> : j \in 1..NForge}
 KindsOf(c) == (IF "flip" \in MutSel THEN FlipKinds(c) ELSE {})
          \cup (IF "len" \in MutSel THEN LenKinds(c) ELSE {})
@@ -149,6 +150,7 @@ KindsOf(c) == (IF "flip" \in MutSel THEN FlipKinds(c) ELSE {})
          \cup (IF "enc" \in MutSel THEN EncKindsOf(c) ELSE {})
          \cup (IF "ctx" \in MutSel THEN CtxKindsOf(c) ELSE {})
          \cup (IF "forge" \in MutSel THEN ForgeKinds ELSE {})
+         \cup (IF "adv" \in MutSel THEN AdvKindsOf ELSE {})
 Aux(kind) ==
   [pub |-> IF kind[2] = "otherkey" THEN PubOf(OtherId(key)) ELSE <<>>,
    uid |-> Rnd(61, 16), msg |-> IF kind[2] = "othermsg" THEN Rnd(69, Len(cand.msg)) ELSE <<>>,
